@@ -22,7 +22,7 @@ ASSUMPTIONS = [
     "pool submissions are observed through the ThreadPoolExecutor subclass installed by the harness",
     "the invoking thread is the thread that calls the DAG (for AsyncDAG: the thread running the event loop)",
 ]
-BUDGET = {"quick": {"shards": 4, "seconds": 40}, "thorough": {"shards": 16, "seconds": 420}}
+BUDGET = {"quick": {"shards": 8, "seconds": 40}, "thorough": {"shards": 16, "seconds": 420}}
 
 
 def _nt(case: Dict[str, Any], M: Model, stats: List[Dict[str, Any]]) -> bool:
